@@ -21,6 +21,9 @@ use super::{
     tls::{TlsClientConfig, TlsServerConfig},
 };
 
+const QUIC_KEEP_ALIVE_SECS: u64 = 10;
+const QUIC_IDLE_TIMEOUT_SECS: u64 = 30;
+
 pub const ALPN_QUIC_HTTP11C: &[&[u8]] = &[b"h11c"]; //this is not regular HTTP3 connection, it uses HTTP1.1 CONNECT instead.
 
 pub fn create_quic_server(tls: &TlsServerConfig) -> Result<ServerConfig, Error> {
@@ -35,8 +38,14 @@ pub fn create_quic_server(tls: &TlsServerConfig) -> Result<ServerConfig, Error> 
 
     let mut transport_config = quinn::TransportConfig::default();
     transport_config.max_concurrent_uni_streams(0u8.into());
-    transport_config.keep_alive_interval(Some(Duration::from_secs(30)));
-    transport_config.max_idle_timeout(Some(Duration::from_secs(3600).try_into().unwrap()));
+    // a peer that vanished (killed, rebooted) sends nothing, not even a reset: only the idle timeout
+    // tells. Keep it a small multiple of the keep-alive interval instead of an hour.
+    transport_config.keep_alive_interval(Some(Duration::from_secs(QUIC_KEEP_ALIVE_SECS)));
+    transport_config.max_idle_timeout(Some(
+        Duration::from_secs(QUIC_IDLE_TIMEOUT_SECS)
+            .try_into()
+            .unwrap(),
+    ));
 
     let mut cfg = ServerConfig::with_crypto(Arc::new(server_crypto));
     cfg.transport = Arc::new(transport_config);
@@ -67,8 +76,14 @@ pub fn create_quic_client(tls: &TlsClientConfig, enable_bbr: bool) -> Result<Cli
 
     let mut transport_config = quinn::TransportConfig::default();
     transport_config.max_concurrent_uni_streams(0u8.into());
-    transport_config.keep_alive_interval(Some(Duration::from_secs(30)));
-    transport_config.max_idle_timeout(Some(Duration::from_secs(3600).try_into().unwrap()));
+    // a peer that vanished (killed, rebooted) sends nothing, not even a reset: only the idle timeout
+    // tells. Keep it a small multiple of the keep-alive interval instead of an hour.
+    transport_config.keep_alive_interval(Some(Duration::from_secs(QUIC_KEEP_ALIVE_SECS)));
+    transport_config.max_idle_timeout(Some(
+        Duration::from_secs(QUIC_IDLE_TIMEOUT_SECS)
+            .try_into()
+            .unwrap(),
+    ));
     if enable_bbr {
         transport_config.congestion_controller_factory(Arc::new(congestion::BbrConfig::default()));
     }
